@@ -9,6 +9,7 @@ attribute objects; operations on a copy never reach the original) is proved in P
 -/
 import Nitime.Model.C16
 import Nitime.Props.C17
+import Nitime.Lemmas.C16Memo
 
 namespace Nitime.C16.Props
 open Nitime Nitime.C16
@@ -427,17 +428,122 @@ def inPlaceByContract : List (String × String × String) :=
   [("utils", "normalize_coherence", "x"), ("utils", "normal_coherence_to_unit", "y"),
    ("utils", "unwrap_phases", "a"), ("utils", "fill_diagonal", "a"), ("utils", "tridi_inverse_iteration", "x0")]
 
-open Generated.C16Alias in
-def writeOk (w : Write) : Bool :=
-  w.argAliases.all fun p => inPlaceByContract.contains (w.module, w.func, p)
+/-- methods by which an object changes ITSELF (`ts += x`, `ts[i] = v`): a write to what the object was built around
+(`self.data`, bound to the constructor's argument) is the documented meaning of these operators -/
+def inPlaceOperators : List String :=
+  ["__iadd__", "__isub__", "__imul__", "__idiv__", "__itruediv__", "__ifloordiv__", "__imod__", "__ipow__",
+   "__setitem__", "__delitem__"]
+
+/-- (module, function, alias) — the RECORDED FINDING, derived by the analysis (not listed by the translator):
+`CoherenceAnalyzer.__init__` keeps the caller's `method` dict (`self.method = method`) and fills defaults into it
+(lines `self.method['Fs'] = …`, `['NFFT']`, `['n_overlap']`), and `set_input` — ANOTHER method — writes `self.method['Fs']`
+through the attribute bound in the constructor.  Pinned by the repo's test_CoherenceAnalyzer (known finding
+`entry/CoherenceAnalyzer*/method-dict/argument-mutated/+Fs*`). -/
+def recordedFinding : List (String × String × String) :=
+  [("analysis.coherence", "CoherenceAnalyzer.__init__", "method"),
+   ("analysis.coherence", "CoherenceAnalyzer.set_input", "CoherenceAnalyzer.__init__:method")]
+
+/-- (module, function, alias) where the may-alias analysis is coarser than numpy: `b = rxx_m[0].real; b *= …` in
+`AR_est_LD` (an ELEMENT of the 1-d autocorrelation sequence is an immutable numpy scalar: `*=` rebinds `b`);
+`event_trig = data[idx + offset]; event_trig -= event_trig[0]` in `EventRelatedAnalyzer.eta/ets` (indexing with an
+integer ARRAY copies).  Both are exercised on every run by the snapshot sweep (`AR_est_LD/rxx`, `EventRelatedAnalyzer*`). -/
+def aliasCoarse : List (String × String × String) :=
+  [("algorithms.autoregressive", "AR_est_LD", "rxx"),
+   ("analysis.event_related", "EventRelatedAnalyzer.eta", "EventRelatedAnalyzer.__init__:time_series"),
+   ("analysis.event_related", "EventRelatedAnalyzer.ets", "EventRelatedAnalyzer.__init__:time_series")]
 
 open Generated.C16Alias in
-/-- **no write through an argument alias**: every anchor file parsed, and every in-place statement
-in them targets a fresh object (or `self`), except in the five routines that work in place by
-contract.  A change that makes a routine keep working on (or hand back and later write to) the
-caller's buffer — `x = np.asarray(x); x /= N`, a conditional `return x` followed by an in-place
-step in the caller, `Sk_loc = Sk.reshape(…); Sk_loc /= …`, `s.shape = …` — falsifies this. -/
+def aliasExcused (w : Write) (p : String) : Bool :=
+  inPlaceByContract.contains (w.module, w.func, p) || recordedFinding.contains (w.module, w.func, p) ||
+  aliasCoarse.contains (w.module, w.func, p)
+
+open Generated.C16Alias in
+/-- own parameters: only the listed exceptions; constructor arguments reached through `self.<attr>` (flows between
+methods of one class): the listed exceptions, or the method is one of the object's own in-place operators -/
+def writeOk (w : Write) : Bool :=
+  (w.argAliases.all fun p => aliasExcused w p) &&
+  (w.ctorAliases.all fun p => inPlaceOperators.contains w.method || aliasExcused w p)
+
+open Generated.C16Alias in
+/-- **no write through an argument alias**: every file of the entry-point registry parsed, and every in-place
+statement in them targets a fresh object (or `self`) — where "argument" includes the arguments of the CONSTRUCTOR
+(or of any other method) that the object keeps in an attribute and another method later writes through —
+except in the five routines that work in place by contract, the object's own in-place operators, the recorded
+`method`-dict finding and two places where the analysis is coarser than numpy.  A change that makes a routine keep
+working on (or hand back and later write to) the caller's buffer — `x = np.asarray(x); x /= N`, a conditional
+`return x` followed by an in-place step in the caller, `Sk_loc = Sk.reshape(…); Sk_loc /= …`, `s.shape = …`,
+`self.data = data` in `__init__` and `self.data -= m` in an output method — falsifies this. -/
 theorem no_write_through_argument_alias : parsed = true ∧ writes.all writeOk = true := by
+  decide +kernel
+
+open Generated.C16Alias in
+/-- the `method`-dict finding is DERIVED from the source by the inter-method flow (`self.method = method` in
+`__init__`, `self.method['Fs'] = …` in `set_input`), and only `CoherenceAnalyzer` has it: in the repaired
+analyzers (`SpectralAnalyzer`, `SparseCoherenceAnalyzer`, `SeedCoherenceAnalyzer`: `self.method = dict(method)`)
+no write reaches a constructor argument -/
+theorem method_dict_finding_derived :
+    ((writes.filter fun w => w.func == "CoherenceAnalyzer.set_input").map fun w => (w.kind, w.target, w.ctorAliases))
+      = [("setitem", "self.method", ["CoherenceAnalyzer.__init__:method"])] ∧
+    ((writes.filter fun w => w.func == "CoherenceAnalyzer.__init__" && !w.argAliases.isEmpty).map fun w => w.argAliases)
+      = [["method"], ["method"], ["method"]] ∧
+    (writes.all fun w => !(w.ctorAliases.any fun p => p.endsWith ":method") || w.func == "CoherenceAnalyzer.set_input") = true := by
+  decide +kernel
+
+/-! ### results are fresh objects
+
+`Generated.C16Alias.fns` carries, for every function / method, what its RETURN VALUE may alias: its own parameters
+(`returnsAlias`), arguments of the constructor / other methods kept in `self.<attr>` (`returnsCtorArg`), module-level or
+class-level objects such as caches (`returnsGlobal`). -/
+/-- (module, function, alias): public routines that hand back (a view of) an argument BY DESIGN, and places where the
+analysis is coarser than numpy:
+* in place by contract, returning the array they worked on: `normalize_coherence`, `normal_coherence_to_unit`,
+  `tridi_inverse_iteration`, `unwrap_phases`;
+* `ar_generator(…, v=)` returns the noise it was given next to the generated signal; `zero_pad` returns its input when
+  there is nothing to pad; `multi_intersect([a])` returns `a.ravel()`;
+* numpy-like views by design: `TimeArray.__new__(data, copy=False)`, `__array_wrap__`, `TimeSeries[key]`, `.at`, `.during`,
+  `from_time_and_data`, `Events[key]`;
+* coarse: `AR_est_LD` (`b` is a numpy scalar), `cache_fft` / `SparseCoherenceAnalyzer.cache` / `SeedCoherenceAnalyzer.target_cache`
+  (the cache dict holds NUMBERS read from the `method` dict: Fs, NFFT), `TimeArray.ptp(*args)`, `EventRelatedAnalyzer.et_data`
+  (integer-array indexing copies). -/
+def mayReturnArgument : List (String × String × String) :=
+  [("utils", "ar_generator", "coefs"), ("utils", "ar_generator", "v"), ("utils", "normalize_coherence", "x"),
+   ("utils", "normal_coherence_to_unit", "y"), ("utils", "tridi_inverse_iteration", "x0"), ("utils", "unwrap_phases", "a"),
+   ("utils", "multi_intersect", "input"), ("utils", "zero_pad", "time_series"),
+   ("algorithms.autoregressive", "AR_est_LD", "rxx"), ("algorithms.cohere", "cache_fft", "method"),
+   ("timeseries", "TimeArray.__new__", "data"), ("timeseries", "TimeArray.__array_wrap__", "out_arr"),
+   ("timeseries", "TimeArray.ptp", "args"), ("timeseries", "TimeArray.ptp", "kwargs"),
+   ("timeseries", "UniformTime.__array_wrap__", "out_arr"),
+   ("timeseries", "TimeSeriesBase.__getitem__", "key"), ("timeseries", "TimeSeriesBase.__getitem__", "TimeSeriesBase.__init__:data"),
+   ("timeseries", "TimeSeries.from_time_and_data", "data"), ("timeseries", "TimeSeries.from_time_and_data", "time"),
+   ("timeseries", "TimeSeries.at", "TimeSeriesBase.__init__:data"), ("timeseries", "TimeSeries.during", "TimeSeriesBase.__init__:data"),
+   ("timeseries", "Events.__getitem__", "Events.__init__:data"), ("timeseries", "Events.__getitem__", "Events.__init__:time"),
+   ("analysis.coherence", "SparseCoherenceAnalyzer.cache", "SparseCoherenceAnalyzer.__init__:method"),
+   ("analysis.coherence", "SeedCoherenceAnalyzer.target_cache", "SeedCoherenceAnalyzer.__init__:method"),
+   ("analysis.event_related", "EventRelatedAnalyzer.et_data", "EventRelatedAnalyzer.__init__:time_series")]
+
+open Generated.C16Alias in
+def fnFresh (g : Fn) : Bool :=
+  !g.isPublic ||
+  (((g.returnsAlias.filter fun p => p != "self" && p != "cls") ++ g.returnsCtorArg ++ g.returnsGlobal).all fun p =>
+    mayReturnArgument.contains (g.module, g.func, p))
+
+open Generated.C16Alias in
+/-- **results are fresh**: no public function or method of the registry's files returns an object that may be (or be
+a view of, or hold) one of its arguments, an argument its object was constructed with, or a module-level / class-level
+object (a cache, a table), except the listed by-design cases.  An edit that returns a cache's own buffer
+(`return _memo[key]`), the input itself on a "nothing to do" path (`return x`), or a view of an argument
+(`return ts.TimeSeries(self.input.data, …)`) re-opens this obligation at translation time. -/
+theorem results_are_fresh : parsed = true ∧ fns.all fnFresh = true := by
+  decide +kernel
+
+open Generated.C16Alias in
+/-- today no routine hands out a module-level or class-level object at all, and every analyzer output method
+(`analysis.*`) is fresh with respect to the analyzer's input series -/
+theorem no_global_handed_out :
+    (fns.all fun g => g.returnsGlobal.isEmpty) = true ∧
+    (fns.all fun g => !(g.isPublic && g.module.startsWith "analysis.") ||
+        (g.returnsCtorArg.all fun p => !(p.endsWith ":input" || p.endsWith "time_series") ||
+            mayReturnArgument.contains (g.module, g.func, p))) = true := by
   decide +kernel
 
 open Generated.C16Alias in
@@ -452,10 +558,31 @@ theorem anchor_routines_pure :
          ("algorithms.spectral", "periodogram_csd"), ("algorithms.filter", "boxcar_filter")]).map
       (fun g => (g.func, g.returnsAlias, g.writesParams))
     = [("remove_bias", [], []), ("crosscov", [], []), ("crosscorr", [], []), ("autocov", [], []),
-       ("autocorr", [], []), ("fftconvolve", [], []), ("TimeArray._convert_if_needed", ["val"], []),
-       ("UniformTime._convert_and_check_uniformity", ["val"], []), ("periodogram_csd", [], []),
-       ("boxcar_filter", [], [])] := by
+       ("autocorr", [], []), ("fftconvolve", [], []), ("periodogram_csd", [], []), ("boxcar_filter", [], []),
+       ("TimeArray._convert_if_needed", ["val"], []),
+       ("UniformTime._convert_and_check_uniformity", ["val"], [])] := by
   decide +kernel
+
+open Generated.C16Alias in
+/-- **no state survives between calls**: no in-place statement of the registry's files targets a module-level or
+class-level object (a cache dict, a shared default `method` dict, a per-class list) — neither directly nor through
+`self.<attr>` bound to such an object.  An edit that introduces a memo (`_cache[key] = …`) or fills defaults into a
+shared dict re-opens this obligation; whether the memo is then harmless is what `handed_out_copies_history` is about
+and what the harness's sandwich decides on the real code. -/
+theorem no_module_state_written : (writes.all fun w => w.globalAliases.isEmpty) = true := by
+  decide +kernel
+
+/-! ### process histories: what a routine may remember between calls (class statement, `Lemmas/C16Memo.lean`) -/
+/-- a routine that answers repeated calls from a module-level memo is indistinguishable from recomputing — in every
+history of calls and of in-place changes the caller makes to what it was handed — provided it hands out COPIES -/
+theorem handed_out_copies_history (f : Nat → List Int) (h : List Memo.Step) :
+    Memo.run f true ⟨[], [], []⟩ h = Memo.spec f h := Memo.memo_copy_out_from_start f h
+
+/-- … and not if it hands out the remembered buffer itself (`call 3; overwrite; call 3` answers [9, 9]) -/
+theorem handed_out_buffer_counterexample :
+    Memo.run (fun k => [Int.ofNat k, 1]) false ⟨[], [], []⟩ [.call 3, .scribble 0 [9, 9], .call 3] = [[3, 1], [9, 9]] ∧
+    Memo.spec (fun k => [Int.ofNat k, 1]) [.call 3, .scribble 0 [9, 9], .call 3] = [[3, 1], [3, 1]] :=
+  ⟨Memo.memo_hands_out_buffer_counterexample.1, Memo.memo_hands_out_buffer_counterexample.2.1⟩
 
 /-! ### the unrepaired sites -/
 /-- `t[0:2] = arr` with `t` in ns multiplies the caller's array by 1000 -/
